@@ -273,6 +273,7 @@ func generate(rng *vh.Rng, hostile, withSib bool) Case {
 	var pending []outstanding // retrieved bottom requests not yet answered
 	var answered []outstanding
 	nextTop := uint64(1)
+	var lastRead *vh.Msg
 	ctlID := uint64(500000)
 	// per-case bias so that some histories are reply-starved and others drain quickly
 	wTop := 15 + rng.Intn(30)
@@ -332,9 +333,16 @@ func generate(rng *vh.Rng, hostile, withSib bool) Case {
 			}
 			m := vh.Msg{ID: nextTop, Src: uint64(10 + rng.Intn(3)), Dst: pTop, Addr: addr, PID: uint64(rng.Intn(3))}
 			nextTop++
-			if rng.Intn(5) < 3 {
+			if lastRead != nil && rng.Intn(4) == 0 {
+				// the same access again (address, size and process of the previous read; several wavefronts
+				// reading one location): anything that treats equal requests as one request shows here
+				m.Kind = "KRead"
+				m.Addr, m.Size, m.PID = lastRead.Addr, lastRead.Size, lastRead.PID
+			} else if rng.Intn(5) < 3 {
 				m.Kind = "KRead"
 				m.Size = uint64(1 + rng.Intn(64))
+				lr := m
+				lastRead = &lr
 			} else {
 				m.Kind = "KWrite"
 				sz := 1 + rng.Intn(16)
